@@ -139,6 +139,15 @@ def cases(ctx):
                     out.append({"kind": f"shadowed:{kind}:{how}", "rom": rom, "src": src,
                                 "spec": {"t": "data", "high": rom == "high", "org": org, "off": _phys(rom, org),
                                          "items": [("data", kind, [val])], "end": "zz_end"}})
+            # forward / backward references inside operator expressions
+            for kind, nb in (("dw", 2), ("dl", 3)):
+                org = _org(rng, rom)
+                n_items = 3
+                end = org + nb * n_items
+                src = (f"*={org:#08x}\nzz_start:\n.{kind} zz_end - zz_start, (zz_end - zz_start) * 2 + 1, zz_start + 1\nzz_end:\n.dl zz_end\n")
+                out.append({"kind": f"expr-refs:{kind}", "rom": rom, "src": src,
+                            "spec": {"t": "data", "high": rom == "high", "org": org, "off": _phys(rom, org),
+                                     "items": [("data", kind, [end - org, (end - org) * 2 + 1, org + 1])], "end": "zz_end"}})
             # .ascii
             for text in ("", "A", "Hello, World", "caf\u00e9 \u00fc!", "\u00e9\u00e9", "tab\there", "a;b/*c*/", "[0x41]",
                          # an escaped quote (kept verbatim, backslash included) at the end / start / middle / alone; backslashes
